@@ -405,6 +405,72 @@ func (o *oracle) after(s *sim, sp *runSpec, pre *preState, outcome string) (stri
 			}
 		}
 	}
+	// ---- RFC 5011 §2.1 both ways. (a) A validly self-signed revocation of a trusted anchor (Valid
+	// or Missing — a Missing key is still a published trust anchor) in an accepted refresh takes the
+	// anchor out of the trust set. Not judged where the key tags make the implementation's tag-128
+	// lookup miss by design (carry in the tag fold, another key on either tag): see notes.
+	if accepted && (full || revOnly) && completed {
+		for _, k := range sp.fetch {
+			if !(k.revoked() && k.sep() && hasKey(sp.signers, k.id, k.flags)) {
+				continue
+			}
+			old := kref{id: k.id, flags: k.flags ^ 0x80, tag: tagOf(k.id, k.flags^0x80)}
+			if !hasKey(trusted, old.id, old.flags) || !hasKey(liveAfter, old.id, old.flags) {
+				continue
+			}
+			clean := uint16(old.tag+128) == k.tag && !tbBefore[k.id] && !markerFor(stBefore, k.id)
+			for _, e := range sp.extras {
+				clean = clean && hasKey(e.signers, k.id, k.flags)
+			}
+			for _, x := range allFetched {
+				sameRecord := x.id == k.id && x.flags == k.flags && x.owner == k.owner
+				sameOld := x.id == old.id && x.flags == old.flags && x.owner == 0
+				if (x.tag == k.tag || x.tag == old.tag) && !sameRecord && !sameOld {
+					clean = false
+				}
+			}
+			for _, e := range stBefore {
+				if (e.key.tag == k.tag || e.key.tag == old.tag) && e.key.id != k.id {
+					clean = false
+				}
+			}
+			for _, x := range append(append([]kref(nil), trusted...), s.cfg...) {
+				if (x.tag == k.tag || x.tag == old.tag) && x.id != k.id {
+					clean = false
+				}
+			}
+			if clean && !(sp.fTombWr && sp.fStateWr) {
+				flag(fail("autota/revocation/valid-self-signed-revocation-ignored", "%s still live=%s", old, joinRefs(liveAfter)))
+			}
+		}
+	}
+	// (b) Nothing is tombstoned without that evidence: a new tombstone is the material of a trusted
+	// anchor whose REVOKE form in this answer verifiably self-signed it, a migrated marker, or a
+	// configured key that carries the REVOKE bit.
+	if tbA, kindA := parseObsTomb(tombAfter); kindA == "ok" || kindA == "empty" {
+		for m := range tbA {
+			if tbBefore[m] || markerFor(stBefore, m) {
+				continue
+			}
+			ok := false
+			for _, k := range s.cfg {
+				if k.id == m && k.revoked() {
+					ok = true
+				}
+			}
+			for _, k := range sp.fetch {
+				if k.id == m && k.revoked() && hasKey(sp.signers, k.id, k.flags) && accepted && (full || revOnly) {
+					ok = true
+				}
+			}
+			if stMarkersAfterReseed(pre, m) {
+				ok = true
+			}
+			if !ok {
+				flag(fail("autota/revocation/tombstoned-without-self-signature", "material %d: tomb %s -> %s", m, pre.tomb, tombAfter))
+			}
+		}
+	}
 	failClosedMandated := false
 	for _, m := range revokedNow {
 		if completed && hasMat(liveAfter, m) {
@@ -722,4 +788,15 @@ func (o *oracle) boot(s *sim) string {
 		}
 	}
 	return "ok"
+}
+
+// stMarkersAfterReseed: with no readable state file the live set is re-seeded; a REVOKE-flagged
+// key in it becomes a marker and migrates into the tombstone store.
+func stMarkersAfterReseed(pre *preState, m int) bool {
+	for _, k := range pre.liveBefore {
+		if k.id == m && k.revoked() {
+			return true
+		}
+	}
+	return false
 }
